@@ -67,13 +67,13 @@ type c17Sess struct {
 	autocommit bool
 	inTxn      bool // explicit transaction open, or autocommit=0 and a statement ran since the last commit
 	readOnly   bool
-	view       c17State // committed + own pending (valid while inTxn)
+	view       c17State       // committed + own pending (valid while inTxn)
 	wrote      map[int64]bool // values written in the open transaction
 }
 
 // value bookkeeping for regime V
 type c17Val struct {
-	writer    int  // session index
+	writer    int // session index
 	committed bool
 	dead      bool // rolled back or overwritten before commit
 }
